@@ -4,7 +4,7 @@
 use lattices::algebra;
 use vcommon::{Reporter, Value, hash_of, json};
 
-pub const MAXN: usize = 6;
+pub const MAXN: usize = 8;
 pub type Map = [u8; MAXN];
 
 /// A finite map `rows x cols -> values`, `t[a*cols+b]`. For a binary operation on a carrier of size n:
@@ -600,8 +600,10 @@ pub fn judge_core(c: &Case) -> Outcome {
         (Ok(Ok(())), Expect::Err) => Some((
             format!("C09|algebra::{name}|ok-but-law-fails|fails={}", v.first),
             format!(
-                "{name} returned Ok although its documented law fails on {} (component,tuple) pairs of the carrier; first failing component: {}",
-                v.fails, v.first
+                "{name} returned Ok although its documented law fails on {} (component,tuple) pairs of the carrier; first failing component: {}{}",
+                v.fails,
+                v.first,
+                if v.first == "zero-ring" { " (documented as 'a nonzero commutative ring', but the carrier has no element other than zero)" } else { "" }
             ),
         )),
         (Ok(Err(m)), Expect::Ok) => Some((
@@ -617,8 +619,17 @@ pub fn judge_core(c: &Case) -> Outcome {
 /// per checker: [expected Ok, expected Err, either, near-miss (1..=2 failing tuples)]
 pub type Tally = [[u64; 4]; NCK];
 
+thread_local! {
+    /// (checker, first failing documented component) -> cases judged
+    pub static FIRST_FAILING: std::cell::RefCell<std::collections::BTreeMap<(&'static str, &'static str), u64>> =
+        const { std::cell::RefCell::new(std::collections::BTreeMap::new()) };
+}
+
 pub fn record(rep: &mut Reporter, tally: &mut Tally, c: &Case, o: &Outcome, family: &str) {
     rep.eval();
+    if o.verdict.fails > 0 {
+        FIRST_FAILING.with(|m| *m.borrow_mut().entry((c.ck.name(), o.verdict.first)).or_insert(0) += 1);
+    }
     let t = &mut tally[c.ck as usize];
     match o.verdict.expect {
         Expect::Ok => t[0] += 1,
